@@ -87,6 +87,15 @@ func (h *Sources) Undo() {
 		return
 	}
 
+	// The state being left might not have been saved yet (consecutive
+	// insertions are saved lazily): keep it, so that redo can restore it.
+	if line.pos == 0 && line.items[len(line.items)-1].line != string(*h.line) {
+		line.items = append(line.items, undoItem{
+			line: string(*h.line),
+			pos:  h.cursor.Pos(),
+		})
+	}
+
 	var undo undoItem
 
 	// When undoing, we loop through preceding undo items
